@@ -34,7 +34,7 @@ PROPS = {
         'explanation': 'Key-bag refinement proved in Lean for both bucket kinds (in-memory slot array, Redis list): under an involutive alternate-bucket map '
                        '(proved for power-of-two bucket counts) a successful insert adds one copy to the element\'s bucket pair, relocations keep every fingerprint inside its pair, '
                        'so every element inserted more often than removed is found, for every eviction choice; for other bucket counts the statement is refuted in Lean (finding D2) and only the no-relocation part is proved. '
-                       'Suite `cuckoo` (exact mode) replays every observed Insert/Remove/Lookup of both backends through the model with the mirrored random choices.',
+                       'Suite `cuckoo` (exact mode) replays every observed Insert/Remove/Lookup of both backends through the model with the mirrored random choices. Props/C02Concrete: the same on byte strings through the transcribed positions; Props/MurmurTie: murmur3 is translated from murmur.go on every run and proved equal to the model for all inputs.',
         'assumptions': ['element fingerprints are valid: fingerprint length <= number of decimal digits of the element hash (finding D3 otherwise)',
                         'histories without failed destructive inserts for the no-false-negative theorem (a failed destructive insert may displace one entry by design, C14)',
                         'math/rand stream reproduced by rand.Seed for the correspondence check'],
@@ -46,7 +46,7 @@ PROPS = {
         'race_suites': ['conc'],
         'level': 'proof',
         'explanation': 'Lean theorems over the matrix model for an arbitrary in-range position function and every update history (cell invariant: each cell is the sum of the counts hashed to it); '
-                       'suite `cms` checks every observed Update/UpdateOnce/UpdateString/Count of both backends against the model (abstract mode) and getPositions against its transcription.',
+                       'suite `cms` checks every observed Update/UpdateOnce/UpdateString/Count of both backends against the model (abstract mode) and getPositions against its transcription. Props/C03Machine: a uint64 machine model refines the Nat model for every history whose stream total is below 2^64 (sharp; beyond it counters wrap and the lower bound is false of the code); the cell statements of Update and Merge are translated from the source (ArithTieCMSCells).',
         'assumptions': ['no counter overflow: stream total < 2^64 (in-memory uint64) resp. < 2^53 (Lua numbers)',
                         'Redis sketches narrower than gopher-lua\'s unpack limit (finding D24 otherwise)'],
     },
@@ -91,7 +91,7 @@ PROPS = {
         'suites': ['persist'],
         'level': 'proof',
         'explanation': 'Lean: byte-exact encoders/decoders of the five binary formats; decode(encode s ++ rest) = (s, rest) for every well-formed image, reported byte counts = encoded length, back-to-back streams. '
-                       'Suite `persist` compares WriteTo output byte for byte with the model encoder, ReadFrom results with the model decoder (also on truncated input), and checks counts/consumption/equality/queries on the implementation.',
+                       'Suite `persist` compares WriteTo output byte for byte with the model encoder, ReadFrom results with the model decoder (also on truncated input), and checks counts/consumption/equality/queries on the implementation. Props/C11Table (regenerated layout table): one byte order, write and read sequences agree pairwise in type, nesting and loop depth and equal the sequence of the Lean codec. Props/C11Reach: images of all reachable states of the operational models are well-formed, so the round-trip, count and truncation theorems apply to them (parameters and totals below 2^64).',
         'assumptions': ['all header fields < 2^64; float parameters travel as bit patterns', 'bits-and-blooms/bitset WriteTo/ReadFrom format as transcribed (tie-checked)'],
     },
     'C12': {
@@ -167,7 +167,7 @@ PROPS = {
         'level': 'proof',
         'explanation': 'Lean: Export/Import of all ten variants transcribed field by field (mirror records, Redis import scripts incl. the Lua loop bounds); import(export s) restores parameters and payload into an instance holding arbitrary other state, '
                        'the Redis bitmap codec is an involution, imports under new keys write no pre-existing key; the Top-K theorem needs UTF-8-stable names (finding D23) and the Redis HLL one the unpack limit (finding D26). '
-                       'Suite `json` exports random reachable states of all ten variants, imports into busy instances, compares parameters/payload/queries/Equals, continues both copies in lock-step and checks the exporter untouched.',
+                       'Suite `json` exports random reachable states of all ten variants, imports into busy instances, compares parameters/payload/queries/Equals, continues both copies in lock-step and checks the exporter untouched. Props/C10Table (regenerated JSON table): no omitempty/string/- tags, distinct keys, Export sets exactly the mirror fields Import reads (exceptions stated), same receiver field behind each key, keys = the field names of the Lean document records. Props/C11Reach: the round trip for every REACHABLE state of the operational models.',
         'assumptions': ['encoding/json struct <-> bytes is the identity except for the UTF-8 coercion of strings', 'valid cuckoo fingerprints (finding D3)'],
     },
     'C17': {
@@ -202,7 +202,7 @@ PROPS = {
         'explanation': 'Lean: (2) every schedule of calls of the form acquire;body;release that respects mutual exclusion has the final state and per-call results of the sequential execution in lock-acquisition order, which preserves each goroutine\'s program order and applies every call exactly once; '
                        '(3) Bloom/Count-Min/HyperLogLog updates commute, so that state equals the one of any order. Premise (1) - every access to mutable state of the five in-memory types lies inside a critical section of the instance\'s mutex, writes under the write lock - '
                        'is a table REGENERATED from /repo by the go/ast extractor on every run and re-decided by lake build (C07_lock_discipline, C07_lock_table_covers). '
-                       'When it breaks, the search is suite `conc` built with the race detector: 2..16 goroutines on one instance, final state compared with the sequential application.',
+                       'When it breaks, the search is suite `conc` built with the race detector: 2..16 goroutines on one instance, final state compared with the sequential application. Props/C07Sections (regenerated section table): every call is exactly ONE critical section on the receiver, except the two Merge methods, which are snapshot-on-the-argument then apply-on-the-receiver - the shape Props/C07Merge proves linearizable for commuting applies; Top-K always locks outside its sketch.',
         'assumptions': ['sync.Mutex / RWMutex semantics and the Go memory model (a data-race-free program is sequentially consistent)',
                         'Import, ReadFrom, Equals and GetBitSet are outside the call classes the property lists (update, query, length, merge, export/serialize) and are exempt in the table',
                         'the extractor is syntactic: it answers "not guarded" for shapes it does not understand'],
